@@ -164,7 +164,8 @@ func (b bitStringEncoder) Len() int {
 
 func (b bitStringEncoder) Encode(dst []byte) {
 	// x.690 8.6
-	dst[0] = byte(8 - b.BitLength%8)
+	// number of unused bits in the last octet: 0 when the bit length is a multiple of 8
+	dst[0] = byte((8 - b.BitLength%8) % 8)
 	copy(dst[1:], b.Bytes)
 }
 
